@@ -1,7 +1,59 @@
-(* C03 placeholder during construction *)
-From PD Require Import Base.Field Base.Matrix.
-Theorem C03_mmul_id_l :
-  forall (F : Type) (H : FieldOps F) (FL : FieldLaws F) n m (A : @mat F),
-    mmul n n m (mid n) A = canon n m A.
-Proof. intros. apply mmul_id_l. Qed.
-Print Assumptions C03_mmul_id_l.
+(* C03 -- the smoothing posterior equals the exact Rauch-Tung-Striebel posterior.
+   Smoothers store, per step, the backward conditional produced by
+   transition.revert (Model/Gauss.c_revert); marginals are obtained by pushing
+   the terminal marginal backwards through these conditionals; the fixed-point
+   smoother merges consecutive backward conditionals. *)
+From Coq Require Import List Arith.
+From PD Require Import Base.Field Base.Matrix Base.Solve Model.Gauss Spec.RTS
+  Proofs.GaussProofs Proofs.FilterProofs.
+Import ListNotations.
+
+Section C03.
+  Context {F : Type} `{FL : FieldLaws F}.
+
+  (* the plain-form gain of the stored backward conditional satisfies the RTS
+     gain equation  G Cov(prediction) = (A_plain Cov(filter))^T, for arbitrary
+     non-zero preconditioner scalings *)
+  Theorem C03_backward_kernel_gain_equation :
+    forall n c (K : @cond F) (filt obs : @normal F) bw,
+      (forall i, i < n -> vget (c_tl K) i <> f0) ->
+      (forall i, i < n -> vget (c_to K) i <> f0) ->
+      c_revert minv n n c K filt = Some (obs, bw) ->
+      forall i j, i < n -> j < n ->
+      mget (mmul n n n (c_A (c_plain n n c bw)) (n_cov obs)) i j
+      = mget (mtr n n (mmul n n n (c_A (c_plain n n c K)) (n_cov filt))) i j.
+  Proof. exact backward_kernel_gain_equation. Qed.
+
+  (* marginalising the stored backward conditional through ANY next marginal is
+     the RTS update  m + G (m_s - m_pred),  P + G (P_s - P_pred) G^T *)
+  Theorem C03_backward_kernel_is_rts :
+    forall n c (K : @cond F) (filt obs : @normal F) bw,
+      (forall i, i < n -> vget (c_tl K) i <> f0) ->
+      (forall i, i < n -> vget (c_to K) i <> f0) ->
+      c_revert minv n n c K filt = Some (obs, bw) ->
+      forall sm,
+        c_marg n n c bw sm = rts_with_gain n c (c_A (c_plain n n c bw)) filt obs sm.
+  Proof. exact backward_kernel_is_rts. Qed.
+
+  (* fixed-point smoothing: the merged backward conditional acts as the
+     composition of the individual backward steps, so fixed-point marginals at
+     checkpoints coincide with iterated fixed-interval backward marginalisation *)
+  Theorem C03_fixedpoint_merge_is_composition :
+    forall n c (bw0 bw1 : @cond F) (rv : @normal F),
+      c_marg n n c (c_merge n n n c bw0 bw1) rv
+      = c_marg n n c bw0 (c_marg n n c bw1 rv).
+  Proof. intros. apply c_merge_is_composition. Qed.
+
+  (* when the last step ends exactly at the final time the backward model is the
+     identity and the final marginal IS the filtering marginal *)
+  Theorem C03_terminal_marginal_is_filtering :
+    forall n c (rv : @normal F),
+      c_marg n n c (identity_conditional n c) rv
+      = mkN (canon n c (n_mean rv)) (canon n n (n_cov rv)).
+  Proof. exact c_marg_identity. Qed.
+End C03.
+
+Print Assumptions C03_backward_kernel_gain_equation.
+Print Assumptions C03_backward_kernel_is_rts.
+Print Assumptions C03_fixedpoint_merge_is_composition.
+Print Assumptions C03_terminal_marginal_is_filtering.
